@@ -163,6 +163,7 @@ pub static DRIVERS: &[Driver] = &[
     Driver { name: "psblend", run: crate::capsweep::psblend_driver },
     Driver { name: "fdselect", run: crate::capsweep::fdselect_driver },
     Driver { name: "bytecode", run: crate::drivers4::bytecode_driver },
+    Driver { name: "charset", run: crate::capsweep::charset_driver },
 ];
 
 pub fn find(name: &str) -> Option<usize> {
